@@ -49,8 +49,8 @@ DEL_KINDS = ["del_cells", "del_cells", "del_space", "del_space", "del_ref", "rem
 
 def plan(tier):
     if tier == "quick":
-        return {"shards": 8, "examples": 120, "wall": 100}
-    return {"shards": 16, "examples": 2000, "wall": 2400}
+        return {"shards": 8, "examples": 350, "wall": 100}
+    return {"shards": 16, "examples": 5000, "wall": 2400}
 
 
 @st.composite
